@@ -14,7 +14,7 @@ void exec_op(ExecCtx &c) {
   bool done = false;
   try {
     done = exec_basic(c) || exec_spline(c) || exec_arith(c) || exec_apply(c) ||
-           exec_forms(c) || exec_gen(c) || exec_interp(c) || exec_numint(c);
+           exec_forms(c) || exec_gen(c) || exec_interp(c) || exec_numint(c) || exec_shared(c);
   } catch (const std::exception &) {
     // an exception out of the harness's own preparation code (e.g. building a
     // twin of an object some other oracle has already reported as invalid):
